@@ -1384,8 +1384,9 @@ fn atoms_case(p: &Pat, data: &[u8], idx: usize, stats: &mut Stats) -> Option<(St
     let (sps, atoms, _) = out.dump.as_ref()?;
     let mine: Vec<usize> = sps.iter().enumerate().filter(|(_, sp)| sp.pattern_id == 0).map(|(i, _)| i).collect();
     let all_regexp = !mine.is_empty() && mine.iter().all(|i| sps[*i].kind == "Regexp");
-    if !all_regexp || out.panic.is_some() || out.bytes_wrong.is_some() {
-        stats.inc("atoms_not_a_plain_regexp");
+    let n_mine = atoms.iter().filter(|a| mine.contains(&a.sub_pattern_id)).count();
+    if !all_regexp || out.panic.is_some() || out.bytes_wrong.is_some() || n_mine > 400 {
+        stats.inc(if n_mine > 400 { "atoms_too_many_atoms" } else { "atoms_not_a_plain_regexp" });
         let (case, replay, _) = scan_case(p, data, cond, 0, None, idx).ok()?;
         return Some((case, replay, String::new()));
     }
@@ -1572,7 +1573,11 @@ fn chain_case(p: &Pat, data: &[u8], noise: usize, idx: usize, stats: &mut Stats)
         if std::env::var("C01_SHOW_REJECTED").is_ok() { eprintln!("c01: stream e pattern rejected: {e}\n{src}"); } return None; } };
     let dumped = coq_chain_dump(out.dump.as_ref()?);
     let traced = dumped.as_ref().and_then(|d| coq_trace(&out, d.2));
-    if out.panic.is_some() || out.bytes_wrong.is_some() || dumped.is_none() || traced.is_none() {
+    // (a piece with ?? bytes next to its literal expands into hundreds of atoms: the model would spend seconds
+    // enumerating their occurrences; such a case is checked against the specification only)
+    let too_many_atoms = dumped.as_ref().map_or(false, |d| d.3 > 96);
+    if too_many_atoms { stats.inc("chain_too_many_atoms_for_the_model"); }
+    if out.panic.is_some() || out.bytes_wrong.is_some() || dumped.is_none() || traced.is_none() || too_many_atoms {
         // not a chain (or a panic): the plain differential case
         stats.inc("chain_not_a_chain");
         let (case, replay, _) = scan_case(p, data, idx % CONDS.len(), noise, None, idx).ok()?;
